@@ -61,11 +61,50 @@ type PathScenario struct {
 	Img     []ImgCtr      `json:"img"`
 	Smp     [][3]int      `json:"smp"`  // numX, numY over sden, expected winding number
 	Sden    int           `json:"sden"` // denominator of the sample coordinates
+	// Scale (0 = 1) is a harness-side embedding: the path and the translation of the matrix are multiplied by it,
+	// so that every image of the spec is multiplied by it as well (radii in the hundreds / thousands).
+	Scale int `json:"scale,omitempty"`
+}
+
+func (s *PathScenario) scale() float64 {
+	if s.Scale > 1 {
+		return float64(s.Scale)
+	}
+	return 1
 }
 
 func (s *PathScenario) matrix() canvas.Matrix {
 	d := float64(s.Den)
-	return canvas.Matrix{{float64(s.Mat[0]) / d, float64(s.Mat[1]) / d, float64(s.Mat[2]) / d}, {float64(s.Mat[3]) / d, float64(s.Mat[4]) / d, float64(s.Mat[5]) / d}}
+	k := s.scale()
+	return canvas.Matrix{{float64(s.Mat[0]) / d, float64(s.Mat[1]) / d, k * float64(s.Mat[2]) / d}, {float64(s.Mat[3]) / d, float64(s.Mat[4]) / d, k * float64(s.Mat[5]) / d}}
+}
+
+// largeRadii: exact scenario feature of the known finding transform:arc-radius-not-finite+large-radii. Transform
+// builds Q = T^-T diag(1/rx^2, 1/ry^2) T^-1 with T = m.Rotate(phi); det Q = 1 / (rx ry det m)^2, and Eigen /
+// solveQuadraticFormula take a determinant below the absolute Epsilon = 1e-10 for zero unless Q is diagonal.
+// Feature: some arc has (embedded rx) (embedded ry) |det m| > 1e5 and T is not axis-parallel for it.
+func (s *PathScenario) largeRadii() bool {
+	k := int64(1)
+	if s.Scale > 1 {
+		k = int64(s.Scale)
+	}
+	det := int64(s.Mat[0])*int64(s.Mat[4]) - int64(s.Mat[1])*int64(s.Mat[3])
+	if det < 0 {
+		det = -det
+	}
+	den2 := int64(s.Den) * int64(s.Den)
+	for _, c := range s.Path {
+		for _, g := range c.Segs {
+			if g.K != "A" {
+				continue
+			}
+			axisParallel := g.Rot == 0 && s.Mat[1] == 0 && s.Mat[3] == 0
+			if !axisParallel && int64(g.C2[0])*int64(g.C2[1])*k*k*det > 100000*den2 {
+				return true
+			}
+		}
+	}
+	return false
 }
 
 // matClass is an exact classification of the matrix (integers): used in signatures.
@@ -100,13 +139,15 @@ func near(a, b oracle.Pt, tol float64) bool {
 
 // execPath runs Transform on the real path and compares with the spec's images.
 func execPath(s *PathScenario) (ms []core.Mismatch, skipped bool) {
-	p := latcurve.Build(s.Path, latgeo.Identity, 1)
-	if ok, _ := latcurve.Faithful(s.Path, p, latgeo.Identity, 1); !ok {
+	k := s.scale()
+	emb := latgeo.Emb{Name: "scale", A: k, B: 0, C: 0, D: k, E: 0, F: 0}
+	p := latcurve.Build(s.Path, emb, 1)
+	if ok, _ := latcurve.Faithful(s.Path, p, emb, 1); !ok {
 		return nil, true
 	}
 	m := s.matrix()
 	tag := s.matClass() + "/" + s.Path.Kinds()
-	desc := fmt.Sprintf("path %s, matrix %v/%d", s.Path.SVG(), s.Mat, s.Den)
+	desc := fmt.Sprintf("path %s scaled by %g, matrix %v/%d (translation scaled alike)", s.Path.SVG(), k, s.Mat, s.Den)
 	var q *canvas.Path
 	if ok, pm := latgeo.Try(func() { q = p.Copy().Transform(m) }); !ok {
 		return []core.Mismatch{{Signature: "transform:panic(" + latgeo.PanicClass(pm) + ")+" + tag, Detail: fmt.Sprintf("Transform panics: %v; %s", pm, desc)}}, false
@@ -122,7 +163,17 @@ func execPath(s *PathScenario) (ms []core.Mismatch, skipped bool) {
 			ms = append(ms, core.Mismatch{Signature: sig, Detail: detail + "; " + desc + "; result " + q.String()})
 		}
 	}
-	den := float64(s.Den)
+	for i, r := range segs {
+		if r.Cmd == oracle.CmdArc && (math.IsInf(r.Rx, 0) || math.IsInf(r.Ry, 0) || math.IsNaN(r.Rx) || math.IsNaN(r.Ry) || math.IsNaN(r.Phi)) {
+			feat := tag
+			if s.largeRadii() {
+				feat = "large-radii"
+			}
+			add("transform:arc-radius-not-finite+"+feat, fmt.Sprintf("transformed arc segment %d has radii (%g, %g) and rotation %g", i, r.Rx, r.Ry, r.Phi))
+			return ms, false // the geometric checks below are meaningless for this result
+		}
+	}
+	den := float64(s.Den) / k
 	pt := func(v [2]int) oracle.Pt { return oracle.Pt{X: float64(v[0]) / den, Y: float64(v[1]) / den} }
 	size := 1.0
 	for _, c := range s.Img {
@@ -210,7 +261,7 @@ func execPath(s *PathScenario) (ms []core.Mismatch, skipped bool) {
 	}
 	// 3. the winding function transforms by w o m^-1 with sign sgn det (independent oracle on a fine flattening)
 	cs := oracle.Flatten(segs, 2048)
-	sd := float64(s.Sden)
+	sd := float64(s.Sden) / k
 	bad := 0
 	for _, sm := range s.Smp {
 		x, y := float64(sm[0])/sd, float64(sm[1])/sd
@@ -509,6 +560,7 @@ func cfg(what string, n int, kinds string, num, nc int, matMode string, maxLen i
 type runner struct {
 	c                       *core.Ctx
 	paths, algs, skipped    int64
+	scaled                  int64
 	nontrivPath, nontrivAlg int64
 	seen                    sync.Map
 	classMu                 sync.Mutex
@@ -537,6 +589,17 @@ func (r *runner) run(o tlc.Opts, what string) {
 					return
 				}
 				c.Count(1, 0, 1)
+				// every third scenario with arcs also under the scale-256 embedding (radii 256 .. 2560)
+				if k%3 == 0 && strings.ContainsAny(s.Path.Kinds(), "AE") {
+					s2 := s
+					s2.Scale = 256
+					ms2, _ := execPath(&s2)
+					c.Count(1, 0, 1)
+					atomic.AddInt64(&r.scaled, 1)
+					for i := range ms2 {
+						c.Report(&s2, ms2[i:i+1])
+					}
+				}
 				// non-trivial: the path has a curved segment or >= 3 vertices, the matrix is not a pure translation, and at
 				// least one sample has non-zero expected winding
 				nz := false
@@ -625,13 +688,15 @@ func (d Driver) Run(c *core.Ctx) error {
 		add(tlc.Opts{Config: cfg("path", 10, all, 40, 2, "fixed", 0, "small", false), Seed: c.Seed + 2}, "path", false)
 		add(tlc.Opts{Config: cfg("path", 10, `{"L","A"}`, 60, 1, "random", 0, "small", false), Seed: c.Seed + 3}, "path", false)
 		add(tlc.Opts{Config: cfg("path", 20, `{"L","A"}`, 12, 1, "fixed", 0, "small", false), Seed: c.Seed + 4}, "path", false)
-		add(tlc.Opts{Config: cfg("algebra", 4, `{"L"}`, 1, 1, "one", 4, "small", false)}, "algebra", false) // 17^4 histories
-		add(tlc.Opts{Config: cfg("algebra", 4, `{"L"}`, 1, 1, "one", 3, "full", false)}, "algebra", false)  // 37^3
+		add(tlc.Opts{Config: cfg("path", 20, `{"L","A"}`, 1, 3, "fixed", 0, "small", false)}, "path", false) // 48 "propeller" paths x 48 matrices
+		add(tlc.Opts{Config: cfg("algebra", 4, `{"L"}`, 1, 1, "one", 4, "small", false)}, "algebra", false)  // 17^4 histories
+		add(tlc.Opts{Config: cfg("algebra", 4, `{"L"}`, 1, 1, "one", 3, "full", false)}, "algebra", false)   // 37^3
 		add(tlc.Opts{Config: cfg("algebra", 4, `{"L"}`, 1, 1, "one", 6, "full", false), Simulate: "num=3000", Depth: 7, Seed: c.Seed, Workers: 4}, "algebra", false)
 	} else {
 		add(tlc.Opts{Config: cfg("path", 10, all, 9, 1, "fixed", 0, "small", false), Seed: c.Seed}, "path", false)
 		add(tlc.Opts{Config: cfg("path", 10, `{"L","A"}`, 8, 1, "fixed", 0, "small", false), Seed: c.Seed + 1}, "path", false)
 		add(tlc.Opts{Config: cfg("path", 10, all, 4, 2, "random", 0, "small", false), Seed: c.Seed + 2}, "path", false)
+		add(tlc.Opts{Config: cfg("path", 20, `{"L","A"}`, 1, 3, "few", 0, "small", false)}, "path", false)  // 48 "propeller" paths (same radii, different rotation) x 9 matrices
 		add(tlc.Opts{Config: cfg("algebra", 4, `{"L"}`, 1, 1, "one", 3, "small", false)}, "algebra", false) // all histories of length <= 3
 		add(tlc.Opts{Config: cfg("algebra", 4, `{"L"}`, 1, 1, "one", 5, "full", false), Simulate: "num=200", Depth: 6, Seed: c.Seed, Workers: 4}, "algebra", false)
 	}
@@ -658,6 +723,7 @@ func (d Driver) Run(c *core.Ctx) error {
 	c.SetExtra("path_scenarios", r.paths)
 	c.SetExtra("algebra_histories", r.algs)
 	c.SetExtra("builder_normalised", r.skipped)
+	c.SetExtra("path_scenarios_also_at_scale_256", r.scaled)
 	c.SetExtra("nontrivial_path_scenarios", r.nontrivPath)
 	c.SetExtra("nontrivial_histories", r.nontrivAlg)
 	c.SetExtra("path_scenarios_by_matrix_class", r.classes)
